@@ -6,6 +6,7 @@ native executable; `lake env lean --run Driver.lean` is the fall-back.
 import DL.Model.Codec
 import DL.Model.DecFiles
 import DL.Lemmas.Subst
+import DL.Lemmas.LayoutGen
 import DL.Gen.Particles
 import DL.Gen.Models
 import DL.Gen.Grammar
@@ -222,6 +223,12 @@ def handle (x : Sexp) : Sexp :=
       | .ok d => ok (.list (d.map encStmt))
       | .error e => tag "err" [.atom "ParseError", .atom e])
     | none => bad "dec_read"
+  | .list [.atom "render_layout", extra, seed, d] => match extra.asStrs, seed.asNat, decDoc d with
+    | some ex, some seed, some d =>
+      let g : RGrammar := { labelChars := Gen.labelChars, models := registered Gen.knownModels ex }
+      let (text, gg, gl, gs) := LayoutGen.renderSeeded g seed d
+      ok (.list [.atom text, bool gg, bool gl, bool gs])
+    | _, _, _ => bad "render_layout"
   | .list [.atom "concat_files", fs] => match fs.asStrs with
     | some fs => ok (.atom (String.ofList (concatFiles (fs.map fun f => decodeFile f.toList))))
     | none => bad "concat_files"
